@@ -27,7 +27,7 @@ char *igris_i64toa(int64_t num, char *buf, uint8_t base)
     {
         *(p++) = '-';
         p1++;
-        ud = -num;
+        ud = 0 - (uint64_t)num;
     }
     else
     {
@@ -178,27 +178,27 @@ uint8_t igris_atou8(const char *buf, uint8_t base, char **end)
 int32_t igris_atoi32(const char *buf, uint8_t base, char **end)
 {
     uint8_t minus;
-    int32_t u;
+    uint32_t u;
 
     minus = *buf == '-';
     if (minus)
         ++buf;
 
     u = igris_atou32(buf, base, end);
-    return minus ? -u : u;
+    return (int32_t)(minus ? 0 - u : u);
 }
 
 int64_t igris_atoi64(const char *buf, uint8_t base, char **end)
 {
     uint8_t minus;
-    int64_t u;
+    uint64_t u;
 
     minus = *buf == '-';
     if (minus)
         ++buf;
 
     u = igris_atou64(buf, base, end);
-    return minus ? -u : u;
+    return (int64_t)(minus ? 0 - u : u);
 }
 
 int16_t igris_atoi16(const char *buf, uint8_t base, char **end)
